@@ -1444,6 +1444,26 @@ def trig(theta):
 P = Proxy('np_proxy')
 
 
+class LiftingProxy(Proxy):
+    """like Proxy, but index-like constructors (arange / repeat) give arrays inside the shim as well, for code that
+    later indexes such arrays with symbolic masks (real ndarrays cannot be indexed by symbolic arrays)"""
+
+    def arange(self, *a, **kw):
+        r = Proxy.arange(self, *a, **kw)
+        if active() and r.dtype.kind in 'iuf':
+            return self._const(r)
+        return r
+
+    def repeat(self, a, *args, **kw):
+        r = np.repeat(a, *args, **kw)
+        if active() and isinstance(r, np.ndarray) and r.dtype.kind in 'iuf':
+            return self._const(r)
+        return r
+
+
+PL = LiftingProxy('np_lifting_proxy')
+
+
 def as_strided_subok(x, shape=None, strides=None, subok=False, writeable=True):
     from numpy.lib.stride_tricks import as_strided
     if isinstance(x, np.ndarray) and x.dtype == object and x.size == 0 and shape is not None and int(np.prod(shape)) > 0:
